@@ -27,11 +27,9 @@ Definition total (ml mr w : val) (pl pr bl br : Q) : Q := numof ml + numof mr + 
    - position_x only moves in the rtl over-constrained case, by the amount that puts the right margin edge on
      the containing block's right edge. *)
 Definition width_post (ml mr w : val) (pl pr bl br px cbw : Q) (rtl_shift : bool) (rho : env) (_ : option val) : Prop :=
-  exists a c d x,
-    fieldq (lookup "box" rho) "margin_left" = Some a /\
-    fieldq (lookup "box" rho) "margin_right" = Some c /\
-    fieldq (lookup "box" rho) "width" = Some d /\
-    fieldq (lookup "box" rho) "position_x" = Some x /\
+  exists a c d x is_col,
+    (* the box afterwards: only the three lengths and (rtl) the position change *)
+    lookup "box" rho = mkbox (VNum a) (VNum c) (VNum d) pl pr bl br x is_col /\
     (is_auto w = false -> d == numof w) /\
     (is_auto ml = false -> a == numof ml) /\
     (is_auto mr = false -> c == numof mr) /\
@@ -51,16 +49,16 @@ Ltac blw_tac O HO :=
   lazy -[width_post Qplus Qeq Qle Qlt Qminus Qmult Qdiv Qopp Qinv qadd qsub qmul qdiv qmax qmin qleb qeqb];
   split_paths O; unseal HO; to_props; unfold width_post, total;
   cbn [lookup fieldq fieldv String.eqb Ascii.eqb Bool.eqb is_auto numof andb orb negb];
-  try (do 4 eexists; repeat split; try reflexivity; intros;
+  try (do 5 eexists; repeat split; try reflexivity; intros;
        try discriminate; try (field; fail); simpl in *; try lra; try (exfalso; lra));
   try (match goal with H : _ == _ |- False => unfold Qeq in H; simpl in H; discriminate H end);
   try lra;
   try (match goal with H : _ \/ _ |- _ => destruct H; try discriminate; simpl in *; try lra; try (exfalso; lra) end).
 
-Lemma blw_ltr_gen O (HO : ops_ok O) ml mr w pl pr bl br px cbw :
+Lemma blw_ltr_gen O (HO : ops_ok O) is_col ml mr w pl pr bl br px cbw :
   len ml -> len mr -> len w ->
   run O block_level_width_body
-      [("box", mkbox ml mr w pl pr bl br px false); ("containing_block", cb_tuple cbw)]
+      [("box", mkbox ml mr w pl pr bl br px is_col); ("containing_block", cb_tuple cbw)]
       (width_post ml mr w pl pr bl br px cbw false) (fun _ => False).
 Proof.
   intros Hml Hmr Hw.
@@ -84,12 +82,12 @@ Proof.
 Qed.
 
 (* The statements about the real operations. *)
-Theorem block_level_width_equation_tuple_cb ml mr w pl pr bl br px cbw :
+Theorem block_level_width_equation_tuple_cb is_col ml mr w pl pr bl br px cbw :
   len ml -> len mr -> len w ->
   run real_ops block_level_width_body
-      [("box", mkbox ml mr w pl pr bl br px false); ("containing_block", cb_tuple cbw)]
+      [("box", mkbox ml mr w pl pr bl br px is_col); ("containing_block", cb_tuple cbw)]
       (width_post ml mr w pl pr bl br px cbw false) (fun _ => False).
-Proof. exact (blw_ltr_gen real_ops real_ok ml mr w pl pr bl br px cbw). Qed.
+Proof. exact (blw_ltr_gen real_ops real_ok is_col ml mr w pl pr bl br px cbw). Qed.
 
 Theorem block_level_width_equation_box_cb (rtl is_col : bool) ml mr w pl pr bl br px cbw :
   len ml -> len mr -> len w ->
